@@ -208,6 +208,24 @@ def directed(seed, quick):
             {"op": "wait", "f": 1, "ev": "cut", "nth": 1},
             {"op": "work", "n": 40, "mix": "mixedbig"},
             {"op": "work", "n": 10, "mix": "plain"}]},
+        # value-carrying records whose holds have EXPIRED by the time a follower is transferred the files (the reader skips
+        # them) stand in front of / between the value-carrying records of live holds: every live record still travels with
+        # ITS value frame (record file and value file are read in lockstep)
+        {"name": "dir-expired-value-records-before-transfer", "steps": [
+            {"op": "script", "reqs": [
+                {"ct": 1, "key": 300, "lid": 9301, "set": "AAAA-short-lived-%d" % seed, "exp": 1},
+                {"ct": 1, "key": 301, "lid": 9302, "set": "BBBB-of-key-301"},
+                {"ct": 1, "key": 302, "lid": 9303, "append": "cc", "exp": 1},
+                {"ct": 1, "key": 303, "lid": 9304, "incr": 7},
+                {"ct": 1, "key": 304, "lid": 9305, "set": "x" * (5 + seed % 90), "exp": 2},
+                {"ct": 1, "key": 305, "lid": 9306, "set": "FFFF-of-key-305"},
+                {"ct": 1, "key": 301, "lid": 9307, "append": "+tail"}]},
+            {"op": "work", "n": 6, "mix": "plain"},
+            {"op": "sleep", "secs": 3.2},
+            {"op": "join", "f": 1},
+            {"op": "work", "n": 6, "mix": "value"},
+            {"op": "join", "f": 2, "faults": [{"kind": "cut", "phase": "files", "rec": 2, "res": r(10)}]},
+            {"op": "work", "n": 4, "mix": "plain"}]},
     ]
     if not quick:
         scs += [
@@ -262,6 +280,18 @@ def seeded(seed, i):
         cfg["rewrite"] = 12 + 64 * rng.choice([30, 45, 60])
         mix = "plain" if rng.random() < 0.7 else mix
     steps = [{"op": "work", "n": rng.randrange(5, 60), "mix": mix}]
+    if rng.random() < 0.34:
+        # short-lived value-carrying holds among long-lived ones, expired before the followers join
+        reqs = []
+        for j in range(rng.randrange(3, 9)):
+            short = rng.random() < 0.5
+            val = rng.choice(["set", "append", "incr"])
+            rq = {"ct": 1, "key": 400 + j, "lid": 9400 + j}
+            rq[val] = (rng.randrange(1, 50) if val == "incr" else "v%d-" % j + "y" * rng.randrange(0, 70))
+            if short:
+                rq["exp"] = rng.choice([1, 1, 2])
+            reqs.append(rq)
+        steps += [{"op": "script", "reqs": reqs}, {"op": "work", "n": rng.randrange(2, 12), "mix": mix}, {"op": "sleep", "secs": 3.2}]
     waits = []
     for f in range(1, nf + 1):
         faults = []
